@@ -285,6 +285,32 @@ def shape_unfresh_pruning():
     }
 
 
+def shape_optional_via_amend():
+    """An optional step is needed only through an input that WORK amends while cfg.txt says so."""
+    return {
+        "name": "optional_via_amend",
+        "sources": {"plan.py": ["v1"], "cfg.txt": ["use", "skip", "use"], "s1.txt": ["a"]},
+        "scripts": {
+            "./plan.py": {
+                "on": "plan.py",
+                "versions": {
+                    "v1": [
+                        ["static", ["cfg.txt", "s1.txt"]],
+                        ["step", "O", {"inp": ["s1.txt"], "out": ["sub/opt.txt"], "need": "OPTIONAL"}],
+                        ["step", "WORK", {"inp": ["cfg.txt"], "out": ["w.txt"]}],
+                    ]
+                },
+            },
+            "O": GENERIC_WORKER,
+            "WORK": [
+                ["if_version", "cfg.txt", "use", [["amend", {"inp": ["sub/opt.txt"]}], ["read", "sub/opt.txt"]]],
+                ["read_declared"],
+                ["write_declared"],
+            ],
+        },
+    }
+
+
 def shape_hold():
     return {
         "name": "hold",
@@ -398,6 +424,71 @@ def shape_tree_glob():
     }
 
 
+def shape_nested_dirs():
+    """Static input, static tree and glob whose directories are nested two levels deep."""
+    return {
+        "name": "nested_dirs",
+        "sources": {
+            "plan.py": ["v1"],
+            "a/b/inp.txt": ["a", "b"],
+            "data/deep/d1.txt": ["a", "b"],
+            "src/lib/g1.in": ["a", "b"],
+            "src/lib/g2.in": ["a", "b"],
+        },
+        "scripts": {
+            "./plan.py": {
+                "on": "plan.py",
+                "versions": {
+                    "v1": [
+                        ["static", ["a/b/inp.txt"]],
+                        ["tree", ["data/"]],
+                        ["sglob", "src/lib/*.in"],
+                        ["glob", "src/lib/g${*i}.in", {"i": "[0-9]"},
+                         [["step", "G:{s}", {"inp": ["{m}"], "out": ["out/deep/{s}.out"]}]]],
+                        ["step", "N1", {"inp": ["a/b/inp.txt"], "out": ["n1.txt"]}],
+                        ["step", "T1", {"inp": ["data/deep/d1.txt"], "out": ["t1.txt"]}],
+                    ]
+                },
+            },
+            "G:g1": GENERIC_WORKER,
+            "G:g2": GENERIC_WORKER,
+            "G:g3": GENERIC_WORKER,
+            "N1": GENERIC_WORKER,
+            "T1": GENERIC_WORKER,
+        },
+    }
+
+
+def shape_glob_undeclared():
+    """Steps use glob matches that nothing declares static (UNDECLARED placeholders, build incomplete)."""
+    return {
+        "name": "glob_undeclared",
+        "sources": {"plan.py": ["v1", "v2"], "src/g1.in": ["a", "b"], "src/g2.in": ["a", "b"], "s1.txt": ["a", "b"]},
+        "scripts": {
+            "./plan.py": {
+                "on": "plan.py",
+                "versions": {
+                    "v1": [
+                        ["static", ["s1.txt"]],
+                        ["glob", "src/g${*i}.in", {"i": "[0-9]"}, [["step", "G:{s}", {"inp": ["{m}"], "out": ["out/{s}.out"]}]]],
+                        ["step", "N1", {"inp": ["s1.txt"], "out": ["n1.txt"]}],
+                    ],
+                    "v2": [
+                        ["static", ["s1.txt"]],
+                        ["sglob", "src/*.in"],
+                        ["glob", "src/g${*i}.in", {"i": "[0-9]"}, [["step", "G:{s}", {"inp": ["{m}"], "out": ["out/{s}.out"]}]]],
+                        ["step", "N1", {"inp": ["s1.txt"], "out": ["n1.txt"]}],
+                    ],
+                },
+            },
+            "G:g1": GENERIC_WORKER,
+            "G:g2": GENERIC_WORKER,
+            "G:g3": GENERIC_WORKER,
+            "N1": GENERIC_WORKER,
+        },
+    }
+
+
 def shape_resources():
     return {
         "name": "resources",
@@ -432,10 +523,13 @@ SHAPES = {
         shape_creator_fails_while_child_runs,
         shape_self_product_input,
         shape_unfresh_pruning,
+        shape_optional_via_amend,
         shape_hold,
         shape_amend,
         shape_optional,
         shape_tree_glob,
+        shape_nested_dirs,
+        shape_glob_undeclared,
         shape_resources,
     )
 }
